@@ -402,6 +402,13 @@ func (w *kqueue) addWatch(name string, flags uint32, listDir bool) (string, erro
 	}
 
 	if !alreadyWatching {
+		// The file may have been deleted or renamed between opening it and
+		// registering the descriptor: no event is ever sent for it then, so
+		// nothing would ever close the descriptor again.
+		if _, err := os.Lstat(name); err != nil {
+			unix.Close(info.wd)
+			return "", err
+		}
 		w.watches.add(name, info.linkName, info.wd, info.isDir)
 	}
 
